@@ -177,6 +177,7 @@ def o_subfam(w, args):
 
 # ================================================================ C12
 def own_distance(metric, p, q):
+    p = [float(x) for x in p]; q = [float(x) for x in q]       # (coordinates may arrive as numpy scalars)
     if metric == 'manhattan':
         return sum(abs(b - a) for a, b in zip(p, q))
     if metric == 'chebyshev':
@@ -198,6 +199,7 @@ def own_distance(metric, p, q):
 def own_distance_pow(metric, p, q):
     """the Euclidean-based metrics with the squares taken by the platform's pow (libm: not specified to round
     x^2 correctly) instead of x*x"""
+    p = [float(x) for x in p]; q = [float(x) for x in q]
     if metric == 'half':
         return 0.5 * own_distance_pow(None, p, q)
     if metric is None:
@@ -679,6 +681,8 @@ def o_c19(w, args):
     h = {}
     for p in [s for s in c.simplices() if c.orderOf(s) == 0]:       # (a filtration lists what is visible at its index)
         x = c[p].get(key, default)
+        if impl._EXO['vmode'] == 'np' and hasattr(x, 'dtype') and x.dtype.kind in 'iu':
+            x = int(x)              # a numpy integer scalar is an integer
         if type(x) is not int or x < 0:
             return None          # outside the contract of the integral
         h[tok(p)] = x
@@ -778,8 +782,14 @@ def o_c20_dist(w, args):
     dim = int(args[0]); xs = [float.fromhex(x) for x in args[1:]]
     p, q = xs[:dim], xs[dim:]
     e = Embedding(SimplicialComplex(), dim)
-    got = e.distance(p, q)
     want = math.sqrt(sum((b - a) ** 2 for a, b in zip(p, q)))
+    if impl._EXO['vmode'] == 'np' and all(x == int(x) and abs(x) <= 1.0e9 for x in xs):
+        # the same points as fixed-width integers (pixel / grid coordinates read from an array)
+        p = [numpy.int32(int(x)) for x in p]; q = [numpy.int32(int(x)) for x in q]
+    try:
+        got = e.distance(p, q)
+    except Exception as ex:
+        return '[distance/raises] distance(%s, %s): %s: %s' % (p, q, type(ex).__name__, ex)
     if not (got == want or abs(got - want) <= 4 * abs(want) * 2.0 ** -52):
         return '[distance/not-euclidean] distance(%s, %s) = %r, Euclidean %r' % (p, q, got, want)
     if e.distance(q, p) != got:
